@@ -5,9 +5,17 @@
     `eventIndices`): `eventIndices_spec` — whatever the order in which the account cache was ranged over and whatever
     sort.Sort does, the Index of an event log is the number of EARLIER event logs of the same account in the published list;
     `eventIndices_order_independent`; `eventIndex_consecutive` — per account the indices are 0, 1, 2, … in list order.
+    NOTE: `Event.Index` is NOT consensus data — `rlpEvent{Address, Topics, Data}` (chain/types/event.go:53-57, "not secured by
+    consensus" :32-33) does not encode it, so it reaches neither the log root nor a stored record; the Go is trivially
+    order-free there (`eventIndex := uint(0)` per account, manager.go:212) and `eventIndices_spec` does not need `π3.Nodup`.
+    These three theorems pin a field of the model that the tie prints; they carry no weight for the hash-map-order clause.
   * the one tx handler that turns a Go map into a sequence of journal writes, `ModifyAssetProfileTx` (`modifyProfile`):
     `modifyProfile_order_independent` — with the keys sorted first, the journal (the whole state) after the handler is a
     function of the map's CONTENT: any two visiting orders of the `range`, any two sorting algorithms, the same result.
+    Its whole content is `keySorted_unique` ("key-sorted permutations of a list with distinct keys are equal", i.e.
+    `srt π = srt' π'`): the proof unfolds `modifyProfile` and rewrites the sorted list, so the statement would hold for ANY
+    loop body applied to the sorted list; it proves nothing about WHAT the handler writes (one type-5 log per key, ascending,
+    consecutive versions) — that is the `mo-modprof` tie.  `sortKV_isKeySort` shows the hypothesis `IsKeySort` is inhabited.
     `modifyProfileUnsorted_order_dependent` — the refuted alternative (apply the entries in range order): two orders of
     one two-entry map leave two different journals AND two different published lists (AssetCodeStateLogs are never merged
     and always valuable), i.e. two different preimages of Header.LogRoot.
@@ -211,7 +219,8 @@ theorem keySorted_unique {l l' : List (Nat × Int)} (hp : l.Perm l') (hk : (l.ma
 
 /-- **modifyProfile_order_independent**: the handler as coded (keys collected in range order `π`, sorted, applied): for
     every journal state, any two visiting orders of the same map (`Perm`, distinct keys) and any two sorting algorithms
-    leave the SAME state — cells, version counters and the journal, log for log. -/
+    leave the SAME state — cells, version counters and the journal, log for log.  (Content: `srt π = srt' π'` by
+    `keySorted_unique`; true for any function of the sorted list, nothing specific to SetAssetCodeState is used.) -/
 theorem modifyProfile_order_independent {srt srt' : List (Nat × Int) → List (Nat × Int)}
     (hs : IsKeySort srt) (hs' : IsKeySort srt') (s : JS) (a code : Nat) {π π' : List (Nat × Int)}
     (hp : π.Perm π') (hk : (π.map (·.1)).Nodup) :
